@@ -150,6 +150,11 @@ def flushQ : Nat → List Item → List KAns → List Item × Bool
     | .intr => flushQ f (i :: q) as
     | .fail => (i :: q, true)
 
+/-- lower-case hex without leading zeros (Go's %x) -/
+def hexU32 (n : UInt32) : String :=
+  let ds := (Nat.toDigits 16 n.toNat)
+  String.ofList ds
+
 def clStr (c : Conn) : String := if c.closed then "1:" ++ errStr c.cerr else "0"
 
 def sortStrs (l : List String) : List String := (l.toArray.qsort (· < ·)).toList
@@ -158,12 +163,11 @@ def emit (d : DS) (what ret : String) (id? : Option Nat) (log : Nat := 0) : Stri
   let (cl, lf, it) := match id?.bind d.get with
     | some e => (clStr e.c, left e.c, e.c.q.length)
     | none => ("0", 0, 0)
-  -- the interest set without the writing bit, per registration path and mode: every path asks for
-  -- EPOLLERR|EPOLLHUP|EPOLLRDHUP|EPOLLPRI|EPOLLIN (+ EPOLLET, + EPOLLONESHOT)
+  -- the interest set without the writing bit: `Life.interest` (= the source's masks, Lemmas/SrcBridgeLife.lean)
   let im := match id?.bind d.get with
     | some e =>
       if !e.real && !e.c.closed && e.c.reg && (e.c.kind == Kind.add || e.c.kind == Kind.dial || e.c.kind == Kind.udp) then
-        (if d.mode == "lt" then "201b" else if d.mode == "et" then "8000201b" else "c000201b")
+        hexU32 (interest (if d.mode == "lt" then .lt else if d.mode == "et" then .et else .os))
       else "-"
     | none => "-"
   let ret := match d.err with | some m => s!"MODEL-ERROR:{m}" | none => ret
